@@ -27,14 +27,19 @@ import (
 	"verif/verdict"
 )
 
+func workers() int {
+	w := runtime.NumCPU()
+	if w > 16 {
+		w = 16
+	}
+	if w < 1 {
+		w = 1
+	}
+	return w
+}
+
 func parallel(n int, f func(i int)) {
-	workers := runtime.NumCPU()
-	if workers > 16 {
-		workers = 16
-	}
-	if workers < 1 {
-		workers = 1
-	}
+	workers := workers()
 	var next int64 = -1
 	var wg sync.WaitGroup
 	for w := 0; w < workers; w++ {
@@ -107,7 +112,14 @@ func Run(c *verdict.Ctx) int {
 		case "initchain":
 			guarded(c, "initchain", initCase)(w.Case)
 		case "statesync":
+			pool, err := newSSPool(1)
+			if err != nil {
+				fmt.Fprintln(os.Stderr, "cannot start rpc servers:", err)
+				return 2
+			}
+			ssServers = pool
 			guarded(c, "statesync", ssCase)(w.Case)
+			pool.close()
 		default:
 			fmt.Fprintln(os.Stderr, "unknown stream in replay file:", w.Stream)
 			return 2
@@ -129,7 +141,14 @@ func Run(c *verdict.Ctx) int {
 	lap("history")
 	parallel(c.N(1000, 20000), guarded(c, "initchain", initCase))
 	lap("initchain")
-	parallel(c.N(300, 4000), guarded(c, "statesync", ssCase))
+	if pool, err := newSSPool(workers()); err != nil {
+		c.HarnessError("C08: cannot start the in-process rpc servers of the statesync stage: %v", err)
+	} else {
+		ssServers = pool
+		parallel(c.N(300, 4000), guarded(c, "statesync", ssCase))
+		pool.close()
+		ssServers = nil
+	}
 	lap("statesync")
 
 	if c.Violations() == 0 && (c.Counter("history.lookups_reconstructed_by_2_or_more_rounds") == 0 || c.Counter("history.prunes") == 0 ||
